@@ -179,14 +179,20 @@ def sortedTs : List Ev → Prop
   | .tsWrite _ v :: l => lastTs l ≤ v ∧ sortedTs l
   | _ :: l => sortedTs l
 
-theorem noTs_log (new old : List Ev) (h : ∀ e ∈ new, PQuiet e) :
+/-- not a timestamp write -/
+def PNoTs (e : Ev) : Prop := ∀ k v, e ≠ .tsWrite k v
+
+theorem PQuiet.noTs (e : Ev) (h : PQuiet e) : PNoTs e := by
+  intro k v he; subst he; exact h
+
+theorem noTs_log (new old : List Ev) (h : ∀ e ∈ new, PNoTs e) :
     lastTs (new ++ old) = lastTs old ∧ (sortedTs (new ++ old) ↔ sortedTs old) := by
   induction new with
   | nil => simp
   | cons e es ih =>
     have hq := h e (by simp)
     obtain ⟨i1, i2⟩ := ih (fun x hx => h x (by simp [hx]))
-    cases e <;> simp [PQuiet] at hq <;> simp [lastTs, sortedTs, i1, i2]
+    cases e <;> first | (exact absurd rfl (hq _ _)) | simp [lastTs, sortedTs, i1, i2]
 
 /-- the unwrapped clock bounds everything written so far -/
 structure TInv (s : St) : Prop where
@@ -198,7 +204,7 @@ structure TInv (s : St) : Prop where
 def TInv2 (s : St) : Prop := TInv s ∧ lastTs s.log ≤ s.c.curLastEventTs
 
 /-- a step that writes no timestamp -/
-theorem quiet_tinv {s s' : St} (hf : TFrame s s') (he : Ext PQuiet s s') : (TInv s → TInv s') ∧ (TInv2 s → TInv2 s') := by
+theorem quiet_tinv {s s' : St} (hf : TFrame s s') (he : Ext PNoTs s s') : (TInv s → TInv s') ∧ (TInv2 s → TInv2 s') := by
   obtain ⟨new, hl, hq⟩ := he
   obtain ⟨q1, q2⟩ := noTs_log new s.log hq
   have key : TInv s → TInv s' := by
@@ -228,7 +234,7 @@ theorem cbClock_val (clk : Clock) (s : St) (hw : (cbClock clk s).2.p.clock < 2 ^
   simp only at hw ⊢
   exact Nat.mod_eq_of_lt hw
 
-theorem cbClock_quiet (clk : Clock) (s : St) : Ext PQuiet s (cbClock clk s).2 := (cbClock_same clk s).ext
+theorem cbClock_quiet (clk : Clock) (s : St) : Ext PNoTs s (cbClock clk s).2 := (cbClock_same clk s).ext.mono PQuiet.noTs
 
 /-- the timestamp local of open/close: either the current record's sample (inside a tracing call) or
     a fresh one; in both cases nothing newer has been written and it does not exceed the clock -/
@@ -278,18 +284,18 @@ theorem TInv2.tsw {s : St} (hi : TInv2 s) (k : String) (v : Nat) (h1 : lastTs s.
 /-- a step that writes no timestamp, with its frame facts -/
 structure TQ (s s' : St) : Prop where
   fr : TFrame s s'
-  ext : Ext PQuiet s s'
+  ext : Ext PNoTs s s'
 
-theorem TQ.mk' {s s' : St} (hf : TFrame s s') (hs : Same s s') : TQ s s' := ⟨hf, hs.ext⟩
+theorem TQ.mk' {s s' : St} (hf : TFrame s s') (hs : Same s s') : TQ s s' := ⟨hf, hs.ext.mono PQuiet.noTs⟩
 theorem TQ.trans {a b c : St} (h1 : TQ a b) (h2 : TQ b c) : TQ a c := ⟨h1.fr.trans h2.fr, h1.ext.trans h2.ext⟩
 theorem TQ.lastTs_eq {s s' : St} (h : TQ s s') : lastTs s'.log = lastTs s.log := by
   obtain ⟨new, hl, hq⟩ := h.ext
   rw [hl]; exact (noTs_log new s.log hq).1
 theorem TQ.inv {s s' : St} (h : TQ s s') : TInv s → TInv s' := (quiet_tinv h.fr h.ext).1
 theorem TQ.inv2 {s s' : St} (h : TQ s s') : TInv2 s → TInv2 s' := (quiet_tinv h.fr h.ext).2
-theorem TQ.setAt (s : St) (v : Nat) : TQ s (s.setAt v) := ⟨⟨Nat.le_refl _, rfl, rfl⟩, (Same.setAt s v).ext⟩
-theorem TQ.setFlag (s : St) (b : Bool) : TQ s (s.setFlag b) := ⟨⟨Nat.le_refl _, rfl, rfl⟩, (Same.setFlag s b).ext⟩
-theorem TQ.runSer (f : SerSt → SerSt) (s : St) : TQ s (runSer f s) := ⟨runSer_tf f s, (runSer_same f s).ext⟩
+theorem TQ.setAt (s : St) (v : Nat) : TQ s (s.setAt v) := ⟨⟨Nat.le_refl _, rfl, rfl⟩, Ext.of_log_eq rfl⟩
+theorem TQ.setFlag (s : St) (b : Bool) : TQ s (s.setFlag b) := ⟨⟨Nat.le_refl _, rfl, rfl⟩, Ext.of_log_eq rfl⟩
+theorem TQ.runSer (f : SerSt → SerSt) (s : St) : TQ s (runSer f s) := TQ.mk' (runSer_tf f s) (runSer_same f s)
 
 /-- bookkeeping that only touches context fields other than the two timestamp ones, and the log not at all -/
 theorem TInv.upd {s s' : St} (hi : TInv s) (hl : s'.log = s.log) (hp : s'.p = s.p)
@@ -299,10 +305,10 @@ theorem TInv2.upd {s s' : St} (hi : TInv2 s) (hl : s'.log = s.log) (hp : s'.p = 
     (hc : s'.c.curLastEventTs = s.c.curLastEventTs) : TInv2 s' :=
   ⟨hi.1.upd hl hp hc, by rw [hl, hc]; exact hi.2⟩
 /-- logging an event that is not a timestamp write -/
-theorem TInv.evq {s : St} (hi : TInv s) (e : Ev) (h : PQuiet e) : TInv (s.ev e) :=
-  (TQ.mk (TFrame.refl s) (Ext.ev s e h) : TQ s (s.ev e)).inv hi
-theorem TInv2.evq {s : St} (hi : TInv2 s) (e : Ev) (h : PQuiet e) : TInv2 (s.ev e) :=
-  (TQ.mk (TFrame.refl s) (Ext.ev s e h) : TQ s (s.ev e)).inv2 hi
+theorem TInv.evq {s : St} (hi : TInv s) (e : Ev) (h : PNoTs e) : TInv (s.ev e) :=
+  (TQ.mk ⟨Nat.le_refl _, rfl, rfl⟩ (Ext.ev s e h) : TQ s (s.ev e)).inv hi
+theorem TInv2.evq {s : St} (hi : TInv2 s) (e : Ev) (h : PNoTs e) : TInv2 (s.ev e) :=
+  (TQ.mk ⟨Nat.le_refl _, rfl, rfl⟩ (Ext.ev s e h) : TQ s (s.ev e)).inv2 hi
 
 theorem openWrite_t (cfg : Cfg) (d : DST) (args : Args) (ts : Nat) (saved : Bool) (s : St) :
     (TInv s → (d.feat.tsBegin.isSome → lastTs s.log ≤ ts ∧ ts ≤ s.p.clock) →
@@ -327,7 +333,7 @@ theorem openWrite_t (cfg : Cfg) (d : DST) (args : Args) (ts : Nat) (saved : Bool
           exact h2.tsw _ _ (by rw [hlt]; exact (hts hf).1) (Nat.le_trans (hts hf).2 hq.fr.clock)
         · exact h2
       generalize (if d.feat.tsBegin.isSome = true then s2.ev (.tsWrite "begin" ts) else s2) = s3 at h3
-      exact (h3.evq (.opened s3.c.at_) trivial).upd rfl rfl rfl
+      exact (h3.evq (.opened s3.c.at_) (fun _ _ h => by cases h)).upd rfl rfl rfl
   · intro hi hts
     have h2 := hq.inv2 hi
     split
@@ -338,6 +344,6 @@ theorem openWrite_t (cfg : Cfg) (d : DST) (args : Args) (ts : Nat) (saved : Bool
           exact h2.tsw _ _ (by rw [hlt]; exact (hts hf).1) (by rw [hq.fr.cur]; exact (hts hf).2)
         · exact h2
       generalize (if d.feat.tsBegin.isSome = true then s2.ev (.tsWrite "begin" ts) else s2) = s3 at h3
-      exact (h3.evq (.opened s3.c.at_) trivial).upd rfl rfl rfl
+      exact (h3.evq (.opened s3.c.at_) (fun _ _ h => by cases h)).upd rfl rfl rfl
 
 end BVM
